@@ -73,7 +73,17 @@ KAPPA = {"extrapol2": -1.0, "fromm": 0.0, "quick": 0.5, "extrapol3": 1.0 / 3.0, 
 
 
 def recon(name, rng=None, k=None):
-    """returns (object, full name).  extrapolk draws k from rng (or uses k)"""
+    """returns (object, full name).  extrapolk draws k from rng (or uses k).  A decoy scheme object of the same family (other k /
+    other limiter) is sometimes built right after it: settings kept on the class instead of the instance would show"""
+    obj, full = _recon(name, rng, k)
+    if rng is not None and rng.random() < 0.2:
+        xnum.extrapolk(float(rng.choice([-0.9, 0.123, 0.77])))
+        xnum.muscl(getattr(xnum, str(rng.choice(LIMITERS))))
+        xnum.extrapol2dk(float(rng.choice([-0.9, 0.123, 0.77])))
+    return obj, full
+
+
+def _recon(name, rng=None, k=None):
     if name == "extrapolk":
         if k is None:
             k = float(np.round(rng.uniform(-1.0, 1.0), 3))
@@ -223,7 +233,45 @@ class Scn:
         return "%s/%s" % (self.mname, self.flux)
 
 
-def make_model(mname, rng, source=None, gamma=None, g=None, a=None, section=None):
+def decoy_models(rng, family=None):
+    """build and drop OTHER model objects (other parameters) after the object under test was built and before it is used: parameters
+    kept on the class (shared between instances) instead of the instance would now be those of the decoy"""
+    out = []
+    for _ in range(int(rng.integers(1, 3))):
+        k = int(rng.integers(6))
+        gam = float(rng.choice([1.15, 1.3, 1.67, 1.9]))
+        if k == 0:
+            out.append(euler.euler1d(gamma=gam))
+        elif k == 1:
+            out.append(euler.euler2d(gamma=gam))
+        elif k == 2:
+            out.append(euler.nozzle(lambda x: 2.0 + 0.3 * x, gamma=gam, source=[None, (lambda x, q: 0 * x + 1.0), None]))
+        elif k == 3:
+            out.append(shw.shallowwater1d(g=float(rng.choice([0.5, 3.3, 25.0])), source=[(lambda x, q: 0 * x + 1.0), None]))
+        elif k == 4:
+            out.append(conv.model(float(rng.choice([-7.0, 0.01, 13.0]))))
+        else:
+            out.append(burgers.model())
+    return out
+
+
+def maybe_decoy(rng, prob=0.3):
+    """to be called right after building the object(s) under test directly (not through make_model)"""
+    if rng.random() < prob:
+        decoy_models(rng)
+        return True
+    return False
+
+
+def make_model(mname, rng, source=None, gamma=None, g=None, a=None, section=None, decoy=None):
+    m, d = _make_model(mname, rng, source=source, gamma=gamma, g=g, a=a, section=section)
+    if (rng.random() < 0.3) if decoy is None else decoy:
+        decoy_models(rng)
+        d = dict(d, other_models_built_after_this_one=True)
+    return m, d
+
+
+def _make_model(mname, rng, source=None, gamma=None, g=None, a=None, section=None):
     if mname == "convection":
         a = float(a if a is not None else np.round(rng.uniform(0.2, 3.0), 3) * rng.choice([-1, 1]))
         return conv.model(a), {"convcoef": a}
@@ -342,7 +390,15 @@ class Spec:
         self.mname, self.mparams, self.faces, self.rname, self.flux = mname, dict(mparams), np.array(faces, float), rname, flux
         self.bcL, self.bcR, self.prim, self.section = dict(bcL), dict(bcR), [np.array(p, float) for p in prim], section
 
-    def build(self):
+    def build(self, num=None, model=None):
+        """num / model: objects to REUSE (a scheme or model object that another problem - the twin - has already used)"""
+        if model is not None:
+            mesh = mesh_from_faces(self.faces)
+            num_ = num
+            if num_ is None:
+                num_ = xnum.extrapolk(float(self.rname[10:-1])) if self.rname.startswith("extrapolk(") else recon(self.rname)[0]
+            disc = md.fvm(model, mesh, num_, numflux=self.flux, bcL=self.bcL, bcR=self.bcR)
+            return model, mesh, disc, fdata_prim(model, mesh, self.prim)
         if self.mname == "convection":
             model = conv.model(self.mparams["convcoef"])
         elif self.mname == "burgers":
@@ -354,7 +410,9 @@ class Spec:
         else:
             model = euler.nozzle(self.section, gamma=self.mparams["gamma"])
         mesh = mesh_from_faces(self.faces)
-        if self.rname.startswith("extrapolk("):
+        if num is not None:
+            pass
+        elif self.rname.startswith("extrapolk("):
             num = xnum.extrapolk(float(self.rname[10:-1]))
         else:
             num, _ = recon(self.rname)
